@@ -1,1 +1,503 @@
-(* Front/IntTyProofs.v -- stub, to be filled *)
+(* Front/IntTyProofs.v -- proofs about the INTEGER -> Rust type mapping (C15).
+   Everything is Z arithmetic over all of i64 x i64 at once; no sweeps. *)
+From A1 Require Import Front.IntTy.
+From Coq Require Import Decimal DecimalPos DecimalZ.
+Require Import ZifyBool ZifyNat ZifyN.
+Local Open Scope Z_scope.
+Ltac Zify.zify_post_hook ::= Z.div_mod_to_equations.
+
+Ltac consts := unfold i64_min, i64_max, u64_max, I8_MAX, I16_MAX, I32_MAX, U8_MAX, U16_MAX, U32_MAX in *.
+
+(** * casts *)
+Lemma cast_fits k z : fits k z -> cast k z = z.
+Proof. unfold fits, cast. destruct k; cbn [kmin kmax modulus]; intros H; lia. Qed.
+
+Lemma cast_range k z : fits k (cast k z).
+Proof. unfold fits, cast. destruct k; cbn [kmin kmax modulus]; lia. Qed.
+
+Lemma wrap_u64_id z : 0 <= z <= u64_max -> wrap_u64 z = z.
+Proof. intros H. apply cast_fits. unfold fits; cbn [kmin kmax]. consts. lia. Qed.
+
+Lemma in_i64_true z : i64_min <= z <= i64_max -> in_i64 z = true.
+Proof. unfold in_i64. lia. Qed.
+
+(** the i64 arithmetic of the amplitude trick never overflows: min < 0 there *)
+Lemma i64_add_1_ok m l : i64_min <= l < 0 -> i64_add m l 1 = Ok (l + 1).
+Proof. intros H. unfold i64_add. rewrite in_i64_true by (consts; lia). reflexivity. Qed.
+Lemma i64_abs_ok m l : i64_min <= l < 0 -> i64_abs m (l + 1) = Ok (- (l + 1)).
+Proof. intros H. unfold i64_abs. rewrite in_i64_true by (consts; lia). f_equal. lia. Qed.
+Ltac amplitude := rewrite i64_add_1_ok by lia; cbn [bind]; rewrite i64_abs_ok by lia; cbn [bind].
+
+(** * the interval that is permitted and representable *)
+Lemma permitted_eff lo hi v : wf_range lo hi ->
+  (permitted lo hi v /\ rep64 lo v) <-> eff_lo lo <= v <= eff_hi lo hi.
+Proof.
+  unfold wf_range, wf_bound, permitted, rep64, eff_lo, eff_hi, needs_signed.
+  destruct lo as [l|], hi as [h|]; intros (Hl & Hh & Hlh); try destruct (l <? 0) eqn:E; consts; lia.
+Qed.
+
+Lemma eff_lo_le_hi lo hi : wf_range lo hi -> eff_lo lo <= eff_hi lo hi.
+Proof.
+  unfold wf_range, wf_bound, eff_lo, eff_hi, needs_signed.
+  destruct lo as [l|], hi as [h|]; intros (Hl & Hh & Hlh); try destruct (l <? 0) eqn:E; consts; lia.
+Qed.
+
+(** * what the accessors print *)
+Definition acc_min (t : rty) : Z := unwrap_or (rmin t) 0.
+Definition acc_max (t : rty) : Z :=
+  match rk t with U64 => unwrap_or (rmax t) (wrap_u64 i64_max) | _ => unwrap_or (rmax t) 0 end.
+
+Lemma integer_range_str_acc t : integer_range_str t = (to_string (acc_min t), to_string (acc_max t)).
+Proof. unfold integer_range_str, acc_min, acc_max. destruct (rk t); reflexivity. Qed.
+
+(** * the central case analysis: the non-extensible cascade on literal bounds *)
+Definition Narrowest (k : ikind) (L H : Z) : Prop :=
+  fits k L /\ fits k H /\ signed k = (L <? 0) /\
+  forall k', fits k' L -> fits k' H -> width k <= width k'.
+
+Ltac narrow :=
+  unfold Narrowest, fits; cbn [kmin kmax width signed];
+  repeat split; try lia;
+  let k' := fresh "k'" in intros k'; destruct k'; cbn [kmin kmax width]; lia.
+
+Lemma fixed_lit m l h :
+  i64_min <= l <= i64_max -> i64_min <= h <= i64_max -> l <= h ->
+  exists t, fixed_int_type m (Some l) (Some h) = Ok t /\ rext t = false /\
+            Narrowest (rk t) l h /\ acc_min t = l /\ acc_max t = h /\
+            (forall x, rmin t = Some x -> x = l) /\ (forall y, rmax t = Some y -> y = h).
+Proof.
+  intros Hl Hh Hlh. unfold fixed_int_type, is_unconstrained_pair, unwrap_or.
+  destruct ((l =? 0) && (h =? i64_max)) eqn:E0.
+  { eexists; split; [reflexivity|]. cbn [rk rmin rmax rext]. unfold acc_min, acc_max; cbn [rk rmin rmax unwrap_or].
+    rewrite wrap_u64_id by (consts; lia).
+    repeat split; try (intros ? [=]); try (consts; lia); consts; narrow. }
+  destruct (0 <=? l) eqn:E1.
+  - rewrite wrap_u64_id by (consts; lia).
+    destruct (h <=? U8_MAX) eqn:E2; [|destruct (h <=? U16_MAX) eqn:E3; [|destruct (h <=? U32_MAX) eqn:E4]];
+      (eexists; split; [reflexivity|]); unfold fixed_range, acc_min, acc_max; cbn [rk rmin rmax rext unwrap_or];
+      rewrite !cast_fits by (unfold fits; cbn [kmin kmax]; consts; lia);
+      (repeat split; try (intros ? [= <-]; reflexivity)); consts; narrow.
+  - amplitude.
+    destruct (Z.max (- (l + 1)) h <=? I8_MAX) eqn:E2;
+      [|destruct (Z.max (- (l + 1)) h <=? I16_MAX) eqn:E3; [|destruct (Z.max (- (l + 1)) h <=? I32_MAX) eqn:E4]];
+      (eexists; split; [reflexivity|]); unfold fixed_range, acc_min, acc_max; cbn [rk rmin rmax rext unwrap_or];
+      rewrite !cast_fits by (unfold fits; cbn [kmin kmax]; consts; lia);
+      (repeat split; try (intros ? [= <-]; reflexivity)); consts; narrow.
+Qed.
+
+(* lower literal, no upper bound (MAX): i64 for a negative lower bound, u64 otherwise *)
+Lemma fixed_lit_max m l :
+  i64_min <= l <= i64_max ->
+  exists t, fixed_int_type m (Some l) None = Ok t /\ rext t = false /\
+            Narrowest (rk t) l (if l <? 0 then i64_max else u64_max) /\ acc_min t = l /\
+            (forall x, rmin t = Some x -> x = l) /\
+            (l < 0 -> acc_max t = i64_max /\ forall y, rmax t = Some y -> y = i64_max).
+Proof.
+  intros Hl. unfold fixed_int_type, is_unconstrained_pair, unwrap_or.
+  destruct (l =? 0) eqn:E0.
+  { eexists; split; [reflexivity|]. cbn [rk rmin rmax rext]. unfold acc_min, acc_max; cbn [rk rmin rmax unwrap_or].
+    destruct (l <? 0) eqn:E; [lia|].
+    repeat split; try (intros ? [=]); try lia; consts; narrow. }
+  destruct (0 <=? l) eqn:E1.
+  - rewrite wrap_u64_id by (consts; lia).
+    destruct (i64_max <=? U8_MAX) eqn:E2; [consts; lia|].
+    destruct (i64_max <=? U16_MAX) eqn:E3; [consts; lia|].
+    destruct (i64_max <=? U32_MAX) eqn:E4; [consts; lia|].
+    eexists; split; [reflexivity|]. unfold fixed_range, acc_min, acc_max; cbn [rk rmin rmax rext unwrap_or].
+    rewrite !cast_fits by (unfold fits; cbn [kmin kmax]; consts; lia).
+    destruct (l <? 0) eqn:E; [lia|].
+    repeat split; try (intros ? [= <-]; reflexivity); try lia; consts; narrow.
+  - amplitude.
+    destruct (Z.max (- (l + 1)) i64_max <=? I8_MAX) eqn:E2; [consts; lia|].
+    destruct (Z.max (- (l + 1)) i64_max <=? I16_MAX) eqn:E3; [consts; lia|].
+    destruct (Z.max (- (l + 1)) i64_max <=? I32_MAX) eqn:E4; [consts; lia|].
+    eexists; split; [reflexivity|]. unfold fixed_range, acc_min, acc_max; cbn [rk rmin rmax rext unwrap_or].
+    rewrite !cast_fits by (unfold fits; cbn [kmin kmax]; consts; lia).
+    destruct (l <? 0) eqn:E; [|lia].
+    repeat split; try (intros ? [= <-]; reflexivity); try lia; consts; narrow.
+Qed.
+
+(** * the extensible mapping *)
+Lemma ext_kind_64 lo hi : width (rk (ext_int_type lo hi)) = 64.
+Proof.
+  unfold ext_int_type. destruct (is_unconstrained_pair lo hi); [reflexivity|].
+  destruct ((0 <=? unwrap_or lo 0) && (0 <=? unwrap_or hi 0)); reflexivity.
+Qed.
+
+Lemma ext_lit l h :
+  i64_min <= l <= i64_max -> i64_min <= h <= i64_max -> l <= h ->
+  let t := ext_int_type (Some l) (Some h) in
+  rext t = true /\ fits (rk t) l /\ fits (rk t) h /\ acc_min t = l /\ acc_max t = h /\
+  (forall x, rmin t = Some x -> x = l) /\ (forall y, rmax t = Some y -> y = h).
+Proof.
+  intros Hl Hh Hlh. unfold ext_int_type, is_unconstrained_pair, unwrap_or.
+  destruct ((l =? 0) && (h =? i64_max)) eqn:E0.
+  { cbv zeta. unfold acc_min, acc_max, fits; cbn [rk rmin rmax rext unwrap_or kmin kmax].
+    rewrite wrap_u64_id by (consts; lia). repeat split; try (intros ? [=]); consts; lia. }
+  destruct ((0 <=? l) && (0 <=? h)) eqn:E1; cbv zeta;
+    unfold acc_min, acc_max, fits; cbn [rk rmin rmax rext unwrap_or kmin kmax option_map];
+    rewrite ?wrap_u64_id by (consts; lia);
+    repeat split; try (intros ? [= <-]; reflexivity); consts; lia.
+Qed.
+
+Lemma ext_lit_max l :
+  i64_min <= l <= i64_max ->
+  let t := ext_int_type (Some l) None in
+  rext t = true /\ fits (rk t) l /\ fits (rk t) (if l <? 0 then i64_max else u64_max) /\ acc_min t = l /\
+  (forall x, rmin t = Some x -> x = l) /\
+  (l < 0 -> acc_max t = i64_max /\ forall y, rmax t = Some y -> y = i64_max).
+Proof.
+  intros Hl. unfold ext_int_type, is_unconstrained_pair, unwrap_or.
+  destruct (l =? 0) eqn:E0.
+  { cbv zeta. unfold acc_min, acc_max, fits; cbn [rk rmin rmax rext unwrap_or kmin kmax].
+    destruct (l <? 0) eqn:E; [lia|]. repeat split; try (intros ? [=]); consts; lia. }
+  destruct ((0 <=? l) && (0 <=? 0)) eqn:E1; cbv zeta;
+    unfold acc_min, acc_max, fits; cbn [rk rmin rmax rext unwrap_or kmin kmax option_map];
+    rewrite ?wrap_u64_id by (consts; lia);
+    (destruct (l <? 0) eqn:E; [|]); try lia;
+    repeat split; try (intros ? [= <-]; reflexivity); try (intros ? [=]); consts; lia.
+Qed.
+
+(* MIN .. negative literal, extensible: the one no-lower-bound range that becomes signed *)
+Lemma ext_min_neg h :
+  i64_min <= h < 0 ->
+  let t := ext_int_type None (Some h) in
+  rext t = true /\ rk t = I64 /\ acc_min t = i64_min /\ acc_max t = h /\
+  (forall x, rmin t = Some x -> x = i64_min) /\ (forall y, rmax t = Some y -> y = h).
+Proof.
+  intros Hh. unfold ext_int_type, is_unconstrained_pair, unwrap_or.
+  destruct (h =? i64_max) eqn:E0; [consts; lia|].
+  destruct ((0 <=? 0) && (0 <=? h)) eqn:E1; [lia|]. cbv zeta.
+  unfold acc_min, acc_max; cbn [rk rmin rmax rext unwrap_or].
+  repeat split; intros ? [= <-]; reflexivity.
+Qed.
+
+(** * the front end on well-formed source ranges *)
+Lemma front_lit_lit l h ext :
+  i64_min <= l <= i64_max -> i64_min <= h <= i64_max ->
+  front_range (Constrained (Lit l) (Lit h) ext) = Ok (Some l, Some h, ext).
+Proof.
+  intros Hl Hh. unfold front_range, parse_range, parse_bound.
+  rewrite !in_i64_true by assumption. reflexivity.
+Qed.
+
+Lemma front_lit_kw l ext :
+  i64_min <= l <= i64_max ->
+  front_range (Constrained (Lit l) Kw ext) = Ok (if l =? 0 then None else Some l, None, ext).
+Proof.
+  intros Hl. unfold front_range, parse_range, parse_bound.
+  rewrite !in_i64_true by assumption. destruct (l =? 0); reflexivity.
+Qed.
+
+Lemma front_kw_lit h ext :
+  i64_min <= h <= i64_max ->
+  front_range (Constrained Kw (Lit h) ext) = Ok (None, if h =? i64_max then None else Some h, ext).
+Proof.
+  intros Hh. unfold front_range, parse_range, parse_bound.
+  rewrite !in_i64_true by assumption. destruct (h =? i64_max); reflexivity.
+Qed.
+
+(* `(0..MAX)` is read as no constraint at all; both mappings treat (Some 0, None) and (None, None) alike *)
+Lemma fixed_zero_none m : fixed_int_type m None None = fixed_int_type m (Some 0) None.
+Proof. reflexivity. Qed.
+Lemma ext_zero_none : ext_int_type None None = ext_int_type (Some 0) None.
+Proof. reflexivity. Qed.
+
+Lemma src_lit_kw m l ext : i64_min <= l <= i64_max ->
+  src_int_type m (Constrained (Lit l) Kw ext) = int_type m (Some l) None ext.
+Proof.
+  intros Hl. unfold src_int_type. rewrite front_lit_kw by assumption. cbn [bind].
+  destruct (l =? 0) eqn:E; [|reflexivity].
+  assert (l = 0) as -> by lia. unfold int_type. destruct ext; [rewrite ext_zero_none|rewrite fixed_zero_none]; reflexivity.
+Qed.
+
+Lemma src_lit_lit m l h ext : i64_min <= l <= i64_max -> i64_min <= h <= i64_max ->
+  src_int_type m (Constrained (Lit l) (Lit h) ext) = int_type m (Some l) (Some h) ext.
+Proof. intros Hl Hh. unfold src_int_type. rewrite front_lit_lit by assumption. reflexivity. Qed.
+
+(** totality: a well-formed source range always yields a type (no error, no panic, either profile) *)
+Lemma fixed_total m lo hi :
+  (forall l, lo = Some l -> i64_min <= l <= i64_max) ->
+  exists t, fixed_int_type m lo hi = Ok t.
+Proof.
+  intros Hl. unfold fixed_int_type.
+  destruct (is_unconstrained_pair lo hi); [eexists; reflexivity|].
+  destruct (0 <=? unwrap_or lo 0) eqn:E1.
+  - destruct (_ <=? U8_MAX); [|destruct (_ <=? U16_MAX); [|destruct (_ <=? U32_MAX)]]; eexists; reflexivity.
+  - destruct lo as [l|]; cbn [unwrap_or] in *; [|lia].
+    specialize (Hl l eq_refl). amplitude.
+    destruct (_ <=? I8_MAX); [|destruct (_ <=? I16_MAX); [|destruct (_ <=? I32_MAX)]]; eexists; reflexivity.
+Qed.
+
+Lemma src_total m r : wf_srange r -> exists t, src_int_type m r = Ok t.
+Proof.
+  unfold wf_srange, wf_range, wf_bound. destruct r as [|lo hi ext]; cbn [sr_lo sr_hi].
+  - intros _. eexists; reflexivity.
+  - intros (Hl & Hh & _). unfold src_int_type.
+    destruct lo as [l|], hi as [h|].
+    + rewrite front_lit_lit by assumption. cbn [bind]. unfold int_type. destruct ext; [eexists; reflexivity|].
+      apply fixed_total. intros ? [= <-]. assumption.
+    + rewrite front_lit_kw by assumption. cbn [bind]. unfold int_type. destruct ext; [eexists; reflexivity|].
+      apply fixed_total. destruct (l =? 0); intros ? [= <-]. assumption.
+    + rewrite front_kw_lit by assumption. cbn [bind]. unfold int_type. destruct ext; [eexists; reflexivity|].
+      apply fixed_total. intros ? [=].
+    + destruct ext; eexists; reflexivity.
+Qed.
+
+(** * the summary from which the property theorems are read off *)
+Record summary (r : srange) (t : rty) : Prop := {
+  s_ext : rext t = sr_ext r;
+  s_lo : fits (rk t) (eff_lo (sr_lo r));
+  s_hi : fits (rk t) (eff_hi (sr_lo r) (sr_hi r));
+  s_narrow : sr_ext r = false -> Narrowest (rk t) (eff_lo (sr_lo r)) (eff_hi (sr_lo r) (sr_hi r));
+  s_64 : sr_ext r = true -> width (rk t) = 64;
+  s_accmin : acc_min t = declared_lo r (rk t);
+  s_accmax : ~ Known_max_keyword_i64max_on_u64 r -> acc_max t = declared_hi r (rk t);
+  s_rmin : forall x, rmin t = Some x -> x = declared_lo r (rk t);
+  s_rmax : forall y, rmax t = Some y -> ~ Known_max_keyword_i64max_on_u64 r -> y = declared_hi r (rk t)
+}.
+
+Lemma not_known_cases r : ~ Known_C15 r ->
+  (exists l, sr_lo r = Lit l) \/ (sr_lo r = Kw /\ sr_ext r = true /\ exists h, sr_hi r = Lit h /\ h < 0).
+Proof.
+  unfold Known_C15, Known_no_lower_bound_unsigned. intros HK.
+  destruct (sr_lo r) as [l|] eqn:El; [left; eauto|right].
+  destruct (sr_ext r) eqn:Ee.
+  - destruct (sr_hi r) as [h|] eqn:Eh.
+    + destruct (Z.ltb_spec h 0) as [Hn|Hn]; [eauto 6|].
+      exfalso. apply HK. split; [reflexivity|]. intros (_ & h' & [= <-] & Hlt). lia.
+    + exfalso. apply HK. split; [reflexivity|]. intros (_ & h' & [=] & _).
+  - exfalso. apply HK. split; [reflexivity|]. intros ([=] & _).
+Qed.
+
+Lemma summary_holds m r t :
+  wf_srange r -> ~ Known_C15 r -> src_int_type m r = Ok t -> summary r t.
+Proof.
+  intros Hwf HK Hs. destruct (not_known_cases r HK) as [(l & El) | (El & Ee & h & Eh & Hneg)].
+  - destruct r as [|lo hi ext]; cbn [sr_lo sr_hi sr_ext] in *; [discriminate|]. subst lo.
+    unfold wf_srange, wf_range, wf_bound in Hwf; cbn [sr_lo sr_hi] in Hwf.
+    destruct hi as [h|].
+    + destruct Hwf as (Hl & Hh & Hlh). rewrite src_lit_lit in Hs by assumption. unfold int_type in Hs.
+      destruct ext.
+      * injection Hs as <-. destruct (ext_lit l h Hl Hh Hlh) as (A & B & C & D & E & F & G).
+        constructor; unfold declared_lo, declared_hi; cbn [sr_lo sr_hi sr_ext eff_lo eff_hi]; auto; try discriminate.
+        intros _. apply ext_kind_64.
+      * destruct (fixed_lit m l h Hl Hh Hlh) as (t' & Ht & A & (B1 & B2 & B3 & B4) & D & E & F & G).
+        rewrite Ht in Hs. injection Hs as <-.
+        constructor; unfold declared_lo, declared_hi; cbn [sr_lo sr_hi sr_ext eff_lo eff_hi]; auto; try discriminate.
+        intros _. unfold Narrowest. auto.
+    + destruct Hwf as (Hl & _ & _). rewrite src_lit_kw in Hs by assumption. unfold int_type in Hs.
+      assert (Hkm : forall k, fits k (if l <? 0 then i64_max else u64_max) -> l < 0 -> i64_max = kmax k -> True) by auto.
+      destruct ext.
+      * injection Hs as <-. destruct (ext_lit_max l Hl) as (A & B & C & D & F & G).
+        assert (HK64 := ext_kind_64 (Some l) None).
+        constructor; unfold declared_lo, declared_hi, Known_max_keyword_i64max_on_u64;
+          cbn [sr_lo sr_hi sr_ext eff_lo eff_hi needs_signed]; auto; try discriminate.
+        -- intros Hn. destruct (l <? 0) eqn:E; [|exfalso; apply Hn; auto].
+           destruct (G ltac:(lia)) as (G1 & _). rewrite G1.
+           unfold fits in B, C. destruct (rk (ext_int_type (Some l) None)); cbn [kmin kmax width] in *; consts; lia.
+        -- intros y Hy Hn. destruct (l <? 0) eqn:E; [|exfalso; apply Hn; auto].
+           destruct (G ltac:(lia)) as (_ & G2). rewrite (G2 y Hy).
+           unfold fits in B, C. destruct (rk (ext_int_type (Some l) None)); cbn [kmin kmax width] in *; consts; lia.
+      * destruct (fixed_lit_max m l Hl) as (t' & Ht & A & (B1 & B2 & B3 & B4) & D & F & G).
+        rewrite Ht in Hs. injection Hs as <-.
+        constructor; unfold declared_lo, declared_hi, Known_max_keyword_i64max_on_u64;
+          cbn [sr_lo sr_hi sr_ext eff_lo eff_hi needs_signed]; auto; try discriminate.
+        -- intros _. unfold Narrowest. auto.
+        -- intros Hn. destruct (l <? 0) eqn:E; [|exfalso; apply Hn; auto].
+           destruct (G ltac:(lia)) as (G1 & _). rewrite G1.
+           unfold fits in B1, B2. destruct (rk t'); cbn [kmin kmax width signed] in *; consts; try lia; discriminate.
+        -- intros y Hy Hn. destruct (l <? 0) eqn:E; [|exfalso; apply Hn; auto].
+           destruct (G ltac:(lia)) as (_ & G2). rewrite (G2 y Hy).
+           unfold fits in B1, B2. destruct (rk t'); cbn [kmin kmax width signed] in *; consts; try lia; discriminate.
+  - destruct r as [|lo hi ext]; cbn [sr_lo sr_hi sr_ext] in *; [discriminate|]. subst lo hi ext.
+    unfold wf_srange, wf_range, wf_bound in Hwf; cbn [sr_lo sr_hi] in Hwf. destruct Hwf as (_ & Hh & _).
+    unfold src_int_type in Hs. rewrite front_kw_lit in Hs by assumption. cbn [bind] in Hs.
+    destruct (h =? i64_max) eqn:E; [consts; lia|]. unfold int_type in Hs. injection Hs as <-.
+    destruct (ext_min_neg h ltac:(lia)) as (A & B & C & D & F & G).
+    constructor; unfold declared_lo, declared_hi; cbn [sr_lo sr_hi sr_ext eff_lo eff_hi needs_signed]; rewrite ?B;
+      auto; try discriminate; unfold fits; cbn [kmin kmax]; consts; lia.
+Qed.
+
+(** * the property theorems *)
+Lemma holds_all m r t :
+  wf_srange r -> ~ Known_C15 r -> src_int_type m r = Ok t ->
+  forall v, permitted (sr_lo r) (sr_hi r) v -> rep64 (sr_lo r) v -> fits (rk t) v.
+Proof.
+  intros Hwf HK Hs v Hp Hr. destruct (summary_holds m r t Hwf HK Hs).
+  assert (eff_lo (sr_lo r) <= v <= eff_hi (sr_lo r) (sr_hi r)) as Hv by (apply permitted_eff; auto).
+  unfold fits in *. lia.
+Qed.
+
+Lemma narrowest m r t :
+  wf_srange r -> sr_ext r = false -> ~ Known_C15 r -> src_int_type m r = Ok t ->
+  signed (rk t) = needs_signed (sr_lo r) /\
+  forall k, (forall v, permitted (sr_lo r) (sr_hi r) v -> rep64 (sr_lo r) v -> fits k v) -> width (rk t) <= width k.
+Proof.
+  intros Hwf He HK Hs. destruct (summary_holds m r t Hwf HK Hs) as [_ _ _ Hn _ _ _ _ _].
+  destruct (Hn He) as (_ & _ & Hsg & Hmin). split.
+  - rewrite Hsg. unfold eff_lo, needs_signed. destruct (sr_lo r); reflexivity.
+  - intros k Hk. pose proof (eff_lo_le_hi _ _ Hwf) as Hle.
+    apply Hmin; apply Hk; apply (permitted_eff _ _ _ Hwf); lia.
+Qed.
+
+Lemma ext_is_64 m r t : sr_ext r = true -> src_int_type m r = Ok t -> width (rk t) = 64.
+Proof.
+  intros He Hs. unfold src_int_type in Hs.
+  destruct (front_range r) as [[[lo hi] ext]| |] eqn:Ef; cbn [bind] in Hs; try discriminate.
+  assert (ext = true) as ->.
+  { destruct r as [|slo shi e]; cbn [sr_ext] in He; [discriminate|]. subst e.
+    unfold front_range, parse_range in Ef.
+    destruct (parse_bound slo) as [[l|l]|], (parse_bound shi) as [[h|h]|];
+      try destruct (l =? 0); try destruct (h =? i64_max); cbn in Ef; congruence. }
+  unfold int_type in Hs. injection Hs as <-. apply ext_kind_64.
+Qed.
+
+(** * accessor text *)
+Lemma uint_codes_numeric d : forallb is_numeric (uint_codes d) = true.
+Proof. induction d; cbn [uint_codes forallb]; rewrite ?IHd; reflexivity. Qed.
+
+Lemma codes_uint_codes d : codes_uint (uint_codes d) = Some d.
+Proof. induction d; cbn [uint_codes]; [reflexivity| ..]; cbn; rewrite IHd; reflexivity. Qed.
+
+Lemma codes_uint_skip t : codes_uint (95 :: t) = codes_uint t.
+Proof. reflexivity. Qed.
+
+Lemma codes_uint_cons_ext c t t' : codes_uint t = codes_uint t' -> codes_uint (c :: t) = codes_uint (c :: t').
+Proof. intros H. cbn [codes_uint]. rewrite H. reflexivity. Qed.
+
+Lemma codes_uint_nice p s : codes_uint (nice_loop p s) = codes_uint s.
+Proof.
+  revert p. induction s as [|c t IH]; intros p; [reflexivity|]. cbn [nice_loop].
+  destruct (((p + 1) mod 3 =? 0) && is_numeric c); apply codes_uint_cons_ext; rewrite ?codes_uint_skip; apply IH.
+Qed.
+
+Lemma codes_uint_app_us X : codes_uint (X ++ [95]) = codes_uint X.
+Proof. induction X as [|c t IH]; [reflexivity|]. apply codes_uint_cons_ext, IH. Qed.
+
+Lemma nice_loop_ends s : forall p, s <> [] -> forallb is_numeric s = true ->
+  (p + Z.of_nat (length s)) mod 3 = 0 -> exists X, nice_loop p s = X ++ [95].
+Proof.
+  induction s as [|c t IH]; intros p Hne Hnum Hp; [congruence|].
+  cbn [forallb] in Hnum. apply andb_true_iff in Hnum. destruct Hnum as (Hc & Ht).
+  cbn [nice_loop]. rewrite Hc, andb_true_r.
+  destruct t as [|c2 t2].
+  - cbn [length] in Hp. replace ((p + 1) mod 3 =? 0) with true by lia. exists [c]. reflexivity.
+  - destruct (IH ((p + 1) mod 3) ltac:(congruence) Ht) as (X & HX).
+    { cbn [length] in *. lia. }
+    rewrite HX. destruct ((p + 1) mod 3 =? 0); [exists (c :: 95 :: X)|exists (c :: X)]; reflexivity.
+Qed.
+
+Lemma remove_last_ok m out : out <> [] -> remove_last m out = Ok (removelast out).
+Proof. destruct out; [congruence|reflexivity]. Qed.
+
+Lemma start_pos n : ((3 - n mod 3) mod 3 + n) mod 3 = 0.
+Proof. lia. Qed.
+
+(* digits only *)
+Lemma fmt_digits m d p : d <> Nil -> (p + Z.of_nat (length (uint_codes d))) mod 3 = 0 ->
+  exists X, remove_last m (nice_loop p (uint_codes d)) = Ok X /\ codes_uint X = Some d /\
+            (forall t, X <> 45 :: t) /\ X <> [].
+Proof.
+  intros Hd Hp.
+  assert (uint_codes d <> []) as Hne by (destruct d; cbn; congruence).
+  destruct (nice_loop_ends _ p Hne (uint_codes_numeric d) Hp) as (X & HX).
+  exists X. rewrite HX. rewrite remove_last_ok by (destruct X; discriminate). rewrite removelast_last.
+  split; [reflexivity|]. split.
+  - rewrite <- codes_uint_app_us, <- HX, codes_uint_nice. apply codes_uint_codes.
+  - assert (exists c t, X ++ [95] = c :: t /\ is_numeric c = true) as (c & t & Hct & Hc).
+    { rewrite <- HX. destruct d; try congruence; cbn [uint_codes nice_loop];
+        match goal with |- context [if ?b then _ else _] => destruct b end; eauto. }
+    destruct X as [|x X']; cbn in Hct.
+    + injection Hct as <- _. discriminate.
+    + injection Hct as -> _. split; [|discriminate]. intros t' [= -> _]. discriminate.
+Qed.
+
+Lemma fmt_parse m z : exists txt, format_number_nicely m (to_string z) = Ok txt /\ parse_num txt = Some z.
+Proof.
+  unfold format_number_nicely, to_string.
+  pose proof (DecimalZ.of_to z) as Hz.
+  destruct (Z.to_int z) as [d|d] eqn:Ed.
+  - assert (d <> Nil) as Hd.
+    { unfold Z.to_int in Ed. destruct z; try discriminate; injection Ed as <-; [discriminate|apply Unsigned.to_uint_nonnil]. }
+    destruct (fmt_digits m d _ Hd (start_pos _)) as (X & HX & Hc & Hneg & Hne).
+    exists X. split; [exact HX|]. unfold parse_num.
+    destruct X as [|c t]; [congruence|].
+    assert (c <> 45) as Hc45 by (intros ->; eapply Hneg; reflexivity).
+    rewrite <- Hz.
+    destruct (Z.eq_dec c 45); [congruence|].
+    replace (match c with 45 => _ | _ => match codes_uint (c :: t) with Some Nil | None => None | Some d0 => Some (Z.of_int (Pos d0)) end end)
+      with (match codes_uint (c :: t) with Some Nil | None => None | Some d0 => Some (Z.of_int (Pos d0)) end).
+    + rewrite Hc. destruct d; congruence.
+    + destruct c as [|c|c]; try reflexivity.
+      do 6 (destruct c as [c|c|]; try reflexivity). congruence.
+  - assert (d <> Nil) as Hd.
+    { unfold Z.to_int in Ed. destruct z; try discriminate. injection Ed as <-. apply Unsigned.to_uint_nonnil. }
+    set (n := Z.of_nat (length (45 :: uint_codes d))).
+    cbn [nice_loop]. replace (is_numeric 45) with false by reflexivity. rewrite andb_false_r.
+    destruct (fmt_digits m d (((3 - n mod 3) mod 3 + 1) mod 3) Hd) as (X & HX & Hc & _ & Hne).
+    { subst n. cbn [length]. lia. }
+    exists (45 :: X). split.
+    + unfold remove_last in *.
+      destruct (nice_loop (((3 - n mod 3) mod 3 + 1) mod 3) (uint_codes d)) as [|y ys] eqn:En.
+      * destruct (overflow_checks m); discriminate.
+      * injection HX as <-. reflexivity.
+    + unfold parse_num. rewrite Hc, <- Hz. destruct d; congruence.
+Qed.
+
+Lemma accessors m r t :
+  wf_srange r -> ~ Known_C15 r -> src_int_type m r = Ok t ->
+  exists a b, min_max_fn_text m t = Ok (rk t, a, b) /\
+              parse_num a = Some (declared_lo r (rk t)) /\
+              (~ Known_max_keyword_i64max_on_u64 r -> parse_num b = Some (declared_hi r (rk t))).
+Proof.
+  intros Hwf HK Hs. destruct (summary_holds m r t Hwf HK Hs) as [_ _ _ _ _ Hmin Hmax _ _].
+  unfold min_max_fn_text. rewrite integer_range_str_acc.
+  destruct (fmt_parse m (acc_min t)) as (a & Ha & Pa). destruct (fmt_parse m (acc_max t)) as (b & Hb & Pb).
+  exists a, b. rewrite Ha, Hb. cbn [bind]. split; [reflexivity|]. split.
+  - rewrite Pa, Hmin. reflexivity.
+  - intros Hn. rewrite Pb, (Hmax Hn). reflexivity.
+Qed.
+
+Lemma declared_bounds m r t :
+  wf_srange r -> ~ Known_C15 r -> src_int_type m r = Ok t ->
+  rext t = sr_ext r /\
+  (forall x, rmin t = Some x -> x = declared_lo r (rk t)) /\
+  (forall y, rmax t = Some y -> ~ Known_max_keyword_i64max_on_u64 r -> y = declared_hi r (rk t)).
+Proof. intros Hwf HK Hs. destruct (summary_holds m r t Hwf HK Hs). auto. Qed.
+
+(** * tightness of the finding class: on every well-formed range of the class the property does fail *)
+Lemma no_lower_unsigned m hi ext t :
+  (ext = true -> forall h, hi = Some h -> 0 <= h) ->
+  int_type m None hi ext = Ok t -> signed (rk t) = false.
+Proof.
+  intros Hh. unfold int_type. destruct ext.
+  - intros [= <-]. unfold ext_int_type. destruct (is_unconstrained_pair None hi); [reflexivity|].
+    destruct hi as [h|]; cbn [unwrap_or].
+    + specialize (Hh eq_refl h eq_refl). replace ((0 <=? 0) && (0 <=? h)) with true by lia. reflexivity.
+    + reflexivity.
+  - unfold fixed_int_type. destruct (is_unconstrained_pair None hi); [intros [= <-]; reflexivity|].
+    cbn [unwrap_or]. replace (0 <=? 0) with true by reflexivity.
+    destruct (_ <=? U8_MAX); [|destruct (_ <=? U16_MAX); [|destruct (_ <=? U32_MAX)]]; intros [= <-]; reflexivity.
+Qed.
+
+Lemma known_refuted m r t :
+  wf_srange r -> Known_C15 r -> src_int_type m r = Ok t ->
+  exists v, permitted (sr_lo r) (sr_hi r) v /\ rep64 (sr_lo r) v /\ ~ fits (rk t) v.
+Proof.
+  unfold wf_srange, wf_range, wf_bound, Known_C15, Known_no_lower_bound_unsigned.
+  intros Hwf (Hlo & Hx) Hs.
+  assert (Hsg : signed (rk t) = false).
+  { destruct r as [|lo hi ext]; cbn [sr_lo sr_hi sr_ext] in *.
+    - injection Hs as <-. reflexivity.
+    - subst lo. unfold src_int_type in Hs. destruct hi as [h|].
+      + destruct Hwf as (_ & Hh & _). rewrite front_kw_lit in Hs by assumption. cbn [bind] in Hs.
+        eapply no_lower_unsigned; [|exact Hs]. intros -> h'.
+        destruct (h =? i64_max) eqn:E; [discriminate|]. intros [= <-].
+        destruct (Z.ltb_spec h 0); [|assumption]. exfalso. apply Hx. eauto.
+      + eapply no_lower_unsigned; [|exact Hs]. intros _ h' [=]. }
+  exists (match sr_hi r with Lit h => Z.min (-1) h | Kw => -1 end).
+  rewrite Hlo in *. unfold permitted, rep64, needs_signed, fits.
+  destruct (sr_hi r) as [h|]; destruct Hwf as (_ & Hh & _);
+    (destruct (rk t); try discriminate Hsg); cbn [kmin kmax]; consts; lia.
+Qed.
